@@ -28,7 +28,9 @@ const (
 	ParseErrorLanguageEnglish   = 2 // 仅英文
 )
 
-// parseErrorLanguage 当前错误消息语言设置
+// parseErrorLanguage 默认的错误消息语言设置。
+// 每个 VM 的解析使用自己的 Config.ParseErrorLanguage（见 Context.Parse），互不影响；
+// 此默认值仅用于不经过 Context.Parse 创建的解析器。
 var parseErrorLanguage = ParseErrorLanguageBilingual
 
 // bilingualMsg 双语消息
@@ -48,6 +50,54 @@ var errMsgs = map[string]bilingualMsg{
 	"incomplete":      {"表达式不完整", "Incomplete expression"},
 	"unexpectedChar":  {"无法识别的字符 '%c'", "Unexpected character '%c'"},
 	"syntax":          {"语法错误", "Syntax error"},
+}
+
+// inlineErrMsgs 语法规则内部直接报告的错误消息
+var inlineErrMsgs = map[string]bilingualMsg{
+	"breakOutsideLoop":    {"`break` 不能在循环外使用", "`break` is not allowed outside loop."},
+	"continueOutsideLoop": {"`continue` 不能在循环外使用", "`continue` is not allowed outside loop."},
+	"badIf":               {"不符合if语法: if expr {...} [else {...}]", "Malformed if statement: if expr {...} [else {...}]"},
+	"fstringBlock":        {"{% %} 内必须是语句块或表达式", "{% %} must contain statements or an expression"},
+	"fstringExpr":         {"{} 内必须是语句块或表达式", "{} must contain statements or an expression"},
+	"keywordAsName":       {"使用关键字作为变量名", "Keyword used as a variable name"},
+}
+
+// parseErr 按当前解析器自身的语言设置生成语法规则内部的错误
+func (d *ParserData) parseErr(key string) error {
+	msg := inlineErrMsgs[key]
+	switch d.Config.ParseErrorLanguage {
+	case ParseErrorLanguageChinese:
+		return errors.New(msg.cn)
+	case ParseErrorLanguageEnglish:
+		return errors.New(msg.en)
+	default:
+		return errors.New(msg.cn + " " + msg.en)
+	}
+}
+
+// friendlySyntaxError 友好的语法错误，语言在取文本时才决定，
+// 这样 Context.Parse 可以为它指定发起解析的 VM 的语言，而不必写全局变量
+type friendlySyntaxError struct {
+	pos   position
+	input []byte
+	msg   bilingualMsg
+	char  rune
+	lang  int
+}
+
+// applyParseErrorLanguage 让一次解析产生的友好错误使用指定的语言
+func applyParseErrorLanguage(err error, lang int) {
+	list, ok := err.(errList)
+	if !ok {
+		return
+	}
+	for _, e := range list {
+		if pe, ok := e.(*parserError); ok {
+			if fe, ok := pe.Inner.(*friendlySyntaxError); ok {
+				fe.lang = lang
+			}
+		}
+	}
 }
 
 func init() {
@@ -120,10 +170,16 @@ func formatFriendlyError(pos position, input []byte, expected []string) error {
 
 // fmtErr 格式化错误输出
 func fmtErr(pos position, input []byte, msg bilingualMsg, char rune) error {
+	return &friendlySyntaxError{pos: pos, input: input, msg: msg, char: char, lang: parseErrorLanguage}
+}
+
+// Error 按 e.lang 生成错误文本
+func (e *friendlySyntaxError) Error() string {
+	pos, input, msg, char := e.pos, e.input, e.msg, e.char
 	var sb strings.Builder
 
 	// 标题
-	switch parseErrorLanguage {
+	switch e.lang {
 	case ParseErrorLanguageChinese:
 		sb.WriteString("语法错误\n")
 	case ParseErrorLanguageEnglish:
@@ -152,7 +208,7 @@ func fmtErr(pos position, input []byte, msg bilingualMsg, char rune) error {
 	}
 
 	// 位置和消息
-	switch parseErrorLanguage {
+	switch e.lang {
 	case ParseErrorLanguageChinese:
 		sb.WriteString(fmt.Sprintf("  位置 %d:%d - %s", pos.line, pos.col, cn))
 	case ParseErrorLanguageEnglish:
@@ -162,7 +218,7 @@ func fmtErr(pos position, input []byte, msg bilingualMsg, char rune) error {
 		sb.WriteString(fmt.Sprintf("  Pos %d:%d - %s", pos.line, pos.col, en))
 	}
 
-	return errors.New(sb.String())
+	return sb.String()
 }
 
 // maxQuoteBytes 引用的源码行最多显示的字节数（含省略号）
